@@ -1,4 +1,5 @@
 use crate::sexp::{self, Sx, cps, sym};
+use std::io::Write;
 use git_ai::authorship::authorship_log::{LineRange, PromptRecord};
 use git_ai::authorship::authorship_log_serialization::{
     AttestationEntry, AuthorshipLog, AuthorshipMetadata, FileAttestation,
@@ -135,4 +136,31 @@ pub fn md_parse(body: &str) -> String {
         Ok(_) => "ok".into(),
         Err(_) => "err".into(),
     }
+}
+
+pub fn dispatch(mode: &str) -> Option<fn(&str) -> String> {
+    match mode {
+        "c17-rt" => Some(roundtrip),
+        "c17-de" => Some(deserialize),
+        "c17-md" => Some(md_parse),
+        _ => None,
+    }
+}
+
+/// modes that do not read cases
+pub fn special(mode: &str) -> bool {
+    if mode == "ws-table" {
+        // exhaustive table of char::is_whitespace over all scalar values
+        let out = std::io::stdout();
+        let mut out = out.lock();
+        for c in 0u32..0x110000 {
+            if let Some(ch) = char::from_u32(c) {
+                if ch.is_whitespace() {
+                    writeln!(out, "{}", c).unwrap();
+                }
+            }
+        }
+        return true;
+    }
+    false
 }
